@@ -150,7 +150,7 @@ def gen_read_cases(c, P):
     # sized gz member in front shifts the member so that its END falls on the boundary.
     tail_kinds = list(kinds)
     for j in (1, 2):
-        for d in range(-3, 4):
+        for d in range(-6, 4):
             end = 6 + 16384 * j + d
             m1 = gz_member_of_length(rng, end)
             if m1 is not None:
@@ -219,6 +219,53 @@ def gen_read_cases(c, P):
     return cases
 
 
+def emitted_by_deflate(d):
+    co = zlib.compressobj(9, zlib.DEFLATED, 31, 8)       # the parameters of GZipWrite
+    return len(co.compress(d))
+
+
+def find_partial_drain_payloads(rng, want=3, size=60000, budget=1500):
+    """Data after whose write() the gzip writer's 4096-byte output buffer has 1..5 free bytes:
+    the next write()/flush() finds avail_out < kMinOutput (6) with a PARTIALLY filled buffer and
+    must hand over exactly NextOutput()-buf_ bytes (the case split of ensure_output in the model).
+    Seeded, bounded search: a low-entropy prefix of growing length moves the number of bytes
+    deflate has emitted smoothly; coarse scan, then fine scan where the residue mod 4096 passes 4091..4095."""
+    R = bytes(rng.randrange(256) for _ in range(size))
+    hits = []
+    trials = 0
+    for alpha in (64, 2, 16):
+        L = bytes(rng.randrange(alpha) + 65 for _ in range(size))
+        coarse = []
+        for z in range(0, 48001, 750):
+            coarse.append((z, emitted_by_deflate(L[:z] + R[z:])))
+            trials += 1
+        for (z0, t0), (z1, t1) in zip(coarse, coarse[1:]):
+            if abs(t1 - t0) > 3000 or t0 <= 10 or t1 <= 10:
+                continue
+            lo, hi = min(t0, t1), max(t0, t1)
+            if not any(v % 4096 >= 4091 for v in range(lo, hi + 1)):
+                continue
+            for z in range(z0, z1, 3):
+                t = emitted_by_deflate(L[:z] + R[z:])
+                trials += 1
+                if t % 4096 >= 4091:
+                    hits.append((L[:z] + R[z:], 4096 - t % 4096))
+                    break
+                if trials > budget:
+                    break
+            if len(hits) >= want or trials > budget:
+                return hits
+    return hits
+
+
+def partial_drain_events(events):
+    """how often a deflate call left 1..5 free bytes and the next call started on a fresh buffer"""
+    calls = [x for x in events if not isinstance(x, tuple) and x.rc is not None and x.fn == "deflate"]
+    pairs = [(a, b) for a, b in zip(calls, calls[1:]) if 1 <= a.aout2 <= 5 and b.aout == 4096]
+    # the drain happened in write() (next call is deflate(Z_NO_FLUSH)) or in flush() (Z_FINISH)
+    return sum(1 for a, b in pairs if b.flag == 0), sum(1 for a, b in pairs if b.flag != 0)
+
+
 def gen_write_cases(c, P):
     rng = c.rng
     seqs = [[], ["f"], ["f", "f"], ["w"], ["w", "f", "w"], ["w", "f", "w", "f"],
@@ -255,6 +302,21 @@ def gen_write_cases(c, P):
             nflush = sum(1 for o in s if o == "f")
             cases.append({"comp": comp, "ops": s, "data": data,
                           "bucket": "write/%s/%s" % (comp, "no-data" if not data else ("flushes" if nflush else "no-flush"))})
+    # aimed at the ensure_output case split: 1..5 free bytes at a write()/flush() boundary (gzip; for
+    # bzip2 kMinOutput = 1, so a drained buffer is always completely full -- the same ops run there too)
+    hits = find_partial_drain_payloads(rng, want=3 if c.tier == "quick" else 8)
+    for d, free in hits:
+        for tail in (["w78"], ["w78", "w79"], ["w78", "w" + P["tiny"].hex(), "f"], ["f"], ["w78", "w", "f", "w" + d[:5000].hex()],
+                     ["w" + P["tiny"].hex(), "f", "f"]):
+            ops = ["w" + d.hex()] + tail
+            for comp in ("gzip", "bzip2"):
+                data = b"".join(bytes.fromhex(o[1:]) for o in ops if o.startswith("w"))
+                cases.append({"comp": comp, "ops": ops, "data": data, "bucket": "write/%s/partial-buffer-at-call-boundary(free=%d)" % (comp, free),
+                              # (a flush directly after the big write does not see the partial buffer: deflate
+                              #  still holds pending output then; the one-byte write flushes it first)
+                              "aimed": comp == "gzip" and tail != ["f"]})
+    if not hits:
+        c.broken.append("generator: no payload found that leaves 1..5 free bytes in the gzip output buffer (search budget exhausted)")
     return cases
 
 
@@ -366,6 +428,8 @@ def main(argv):
         return c.finish(rule="build failed")
     c.proofs(extra_trusted=["harness/libvcodec.c (LD_PRELOAD interposer, pass-through logging)",
                             "Python zlib/bz2/lzma and the gzip/bzip2 command line tools as independent codecs"])
+    if c.tier == "thorough":
+        coqchk(c)
     drv, dlog = build_driver("C15")
     impl = hx_bin("hx_compress")
     P = gen_payloads(c)
@@ -386,7 +450,7 @@ def main(argv):
     c.sample({"case": lines[len(rcases) // 2][:200]})
     c.sample({"case": lines[1 + len(rcases) + 8][:200]})
 
-    results, events = codeclog.run_logged(impl, lines, timeout_case=5)
+    results, events = codeclog.run_logged(impl, lines, timeout_case=15, max_bad=4)
     if len(results) != len(lines):
         c.broken.append("harness hx_compress produced %d results for %d cases" % (len(results), len(lines)))
         return c.finish(rule="harness failed")
@@ -476,6 +540,20 @@ def main(argv):
             if r is not None and (r[0] != 0 or r[1] != x["data"]):
                 c.violation("write-cli-decoder-disagrees: %s -dc exit %d, %d bytes, expected %d" % (x["comp"], r[0], len(r[1]), len(x["data"])), rep)
         contract_encoder(c, ev, x["comp"])
+        if x["comp"] == "gzip":
+            n_w, n_f = partial_drain_events(ev)
+            dist = c.cov["distribution"]
+            if n_w:
+                dist["boundary/gzip-partial-buffer-drained-in-write()"] = dist.get("boundary/gzip-partial-buffer-drained-in-write()", 0) + n_w
+            if n_f:
+                dist["boundary/gzip-partial-buffer-drained-in-flush()"] = dist.get("boundary/gzip-partial-buffer-drained-in-flush()", 0) + n_f
+            if not (n_w or n_f) and x.get("aimed"):
+                # (python's zlib and the linked one may emit differently; what counts is that both drains were hit at all, below)
+                dist["boundary/aimed-case-missed"] = dist.get("boundary/aimed-case-missed", 0) + 1
+
+    for kind_ in ("write()", "flush()"):
+        if not c.cov["distribution"].get("boundary/gzip-partial-buffer-drained-in-%s" % kind_) and "SKIPPED" not in results:
+            c.broken.append("generator: the partial-buffer drain in %s (1..5 free bytes, kMinOutput boundary) was not exercised" % kind_)
 
     for (lvl, d), res, ev in zip(zcases, z_res, z_ev):
         rep = {"op": "GZCompress", "harness_line": ("Z %d %s" % (lvl, hexd(d)))[:4000], "level": lvl, "data_len": len(d), "impl": res[:200]}
@@ -494,6 +572,25 @@ def main(argv):
             c.violation("gzcompress-roundtrip: %d bytes level %d expands to %d bytes in %d members" % (len(d), lvl, len(back), members), rep)
         contract_encoder(c, ev, "gzip")
 
+    # --- thorough: all cases again through the ASan+UBSan build (no interposer): uninitialised or
+    #     out-of-bounds use in the driver code shows up as a sanitizer report
+    if c.tier == "thorough":
+        os.environ["HX_TMPDIR"] = codeclog.scratch_dir()
+        asan_lines(c, "hx_compress", [l for l in lines if len(l) < 400000], what="(ReadCompressed/WriteCompressed/GZCompress)")
+
+    # --- thorough: GZCompress beyond what zlib takes in one call (avail_in is an unsigned int): the harness
+    #     generates the record itself and reports what the result expands to
+    if c.tier == "thorough":
+        big = ["ZL %d" % n for n in (4294967295, 4294967296, 4294967301, 8589934590)]
+        env = dict(os.environ, HX_CASE_TIMEOUT="900", HX_TMPDIR=codeclog.scratch_dir())
+        rcb, bout, berr = run_lines(impl, big, timeout=3000, env=env)
+        for l, o in zip(big, bout + ["(no answer)"] * len(big)):
+            n = int(l.split()[1])
+            c.count(("ZL", n), bucket="oneshot/above-4GiB")
+            if o.split(" ")[0] != "OK" or o.split(" ")[2:] != [str(n)]:
+                c.violation("gzcompress-large-record: GZCompress of %d bytes expands to %s (silent truncation modulo 2^32?)" % (n, o),
+                            {"op": "GZCompress", "harness_line": l, "impl": o, "how": "echo '%s' | hx_compress  (needs ~5 GB of memory)" % l})
+
     # --- the real tool writing through ThreadedBufferedStream<WriteCompressed>
     sd = os.path.join(codeclog.scratch_dir(), "c15-shard-%d" % os.getpid())
     for comp in ("gzip", "bzip2"):
@@ -502,7 +599,7 @@ def main(argv):
         inp = b"a\n"
         names = ["s%d" % i for i in range(4)]
         env = dict(os.environ, MALLOC_PERTURB_="165")
-        st, so, se = run_tool([repo_bin("shard"), "-c", comp] + names, stdin=inp, timeout=30, cwd=sd, env=env)
+        st, so, se = codeclog.run_tool_limited([repo_bin("shard"), "-c", comp] + names, stdin=inp, timeout=30, cwd=sd, env=env)
         c.count(("shard", comp), bucket="tool/shard-c-%s-empty-shards" % comp)
         rep = {"op": "shard", "how": "printf 'a\\n' | MALLOC_PERTURB_=165 shard -c %s s0 s1 s2 s3" % comp, "status": st}
         if st != 0:
@@ -519,13 +616,56 @@ def main(argv):
                     c.violation("shard-invalid-file: %s shard %s is not a valid stream (%s)" % (comp, n, e), rep)
             if tot != inp:
                 c.violation("shard-wrong-bytes: shards expand to %r" % tot[:40], rep)
+    # --- a tool reading compressed stdin through util::FilePiece (file_piece.cc falls back to ReadCompressed):
+    #     the same lines must come out whether the input is plain, gz, bz2, xz, multi-member or truncated->error
+    text = b"".join(b"key%d\tvalue %d\n" % (i % 13, i) for i in range(3000))
+    variants = {"gz": enc("gz", text), "bz": enc("bz", text), "xz": enc("xz", text),
+                "gz+bz+xz members": enc("gz", text[:20000]) + enc("bz", text[20000:30000]) + enc("xz", text[30000:]),
+                "gz members at a refill boundary": None}
+    m1 = None
+    for n in range(16384 + 6 - 40, 16384 + 6):
+        cand = enc("gz", bytes(c.rng.randrange(65, 91) for _ in range(n - 1)) + b"\n", 0)    # one long line of letters
+        if len(cand) == 6 + 16384:
+            m1 = cand
+            break
+    if m1 is not None:
+        variants["gz members at a refill boundary"] = m1 + enc("gz", text)
+    ref = None
+    for name, stream in [("plain", text)] + [(k, v) for k, v in variants.items() if v is not None]:
+        shutil.rmtree(sd, ignore_errors=True)
+        os.makedirs(sd)
+        st, so, se = codeclog.run_tool_limited([repo_bin("shard"), "-f", "1", "a", "b", "c"], stdin=stream, timeout=60, cwd=sd)
+        outs = [open(os.path.join(sd, n), "rb").read() if os.path.exists(os.path.join(sd, n)) else None for n in ("a", "b", "c")]
+        c.count(("shard-input", name), bucket="tool/shard-reads-%s-stdin" % name.split(" ")[0])
+        rep = {"op": "shard", "how": "<%s input, %d bytes> | shard -f 1 a b c" % (name, len(stream)), "status": st}
+        if name == "plain":
+            ref = outs
+            continue
+        if name == "gz members at a refill boundary":
+            want_prefix = zlib.decompress(m1, 31)
+            # the first member's bytes are extra lines in front; compare the multiset of the known text lines only
+            got = b"".join(o or b"" for o in outs)
+            if st != 0 or sorted(l for l in got.split(b"\n") if l.startswith(b"key")) != sorted(l for l in text.split(b"\n") if l):
+                c.violation("tool-loses-lines-of-later-member: %s: status %s" % (name, st), rep)
+            continue
+        if st != 0 or outs != ref:
+            c.violation("tool-compressed-input-differs: shard on %s input gives different files than on the plain input (status %s)" % (name, st), rep)
+    for name in ("gz", "bz", "xz"):
+        cut = variants[name][:len(variants[name]) * 2 // 3]
+        shutil.rmtree(sd, ignore_errors=True)
+        os.makedirs(sd)
+        st, so, se = codeclog.run_tool_limited([repo_bin("shard"), "a", "b"], stdin=cut, timeout=30, cwd=sd)
+        c.count(("shard-trunc", name), bucket="tool/shard-reads-truncated-%s-stdin" % name)
+        if st == 0 or st == "timeout":
+            c.violation("tool-truncated-input-%s: shard on a truncated %s stream ends with status %s" % ("hangs" if st == "timeout" else "accepted", name, st),
+                        {"op": "shard", "how": "head -c %d text.%s | shard a b" % (len(cut), name), "status": st})
     shutil.rmtree(sd, ignore_errors=True)
 
     return c.finish(level="proof",
                     rule="read: every payload class (empty, 1 byte, tiny, text, incompressible 5k/40k, 70k zeros) x {gz,bz,xz} x fragmentations (whole, random, 1-byte, every split point of small streams, 16384-boundary) x request sizes; 2-4 concatenated members of mixed codecs; member ends placed around the 16384-byte refill; truncation at every byte of small streams and at buffer boundaries of large ones; plain data of length 0-13 and large, near-magic prefixes; write: op sequences (writes of 0..70000 bytes, flush positions, none at all) x {none,gzip,bzip2}; GZCompress sizes 0-19, around 4096, large, levels 0/1/6/9. distinct = distinct non-empty cases",
                     assumptions=["the codecs obey the contract stated as Section hypotheses (tested on every logged call of this run: cursors monotone, progress, END exactly at member end, return code on avail_in=0 before END)",
                                  "fragment delivery: one read(2) returns min(request, rest of the current fragment) (the harness writes a fragment only when the pipe is empty)",
-                                 "write sizes below 2^32 (the kSizeMax chunking loop of WriteStream::write is not modelled)"])
+                                 "write sizes of 2^32 bytes and more (the kSizeMax chunking recursion of WriteStream::write) are modelled and proved but never exercised"])
 
 
 if __name__ == "__main__":
